@@ -18,12 +18,21 @@ type c05State struct {
 func SetupC05Conc() any {
 	set := corpusSet(sym.Param("set"))
 	st := &c05State{set: set}
-	r, err := fox.New()
+	var opts []fox.GlobalOption
+	if sym.ParamOr("scenario", 0) == 9 {
+		opts = append(opts, fox.WithNoMethod(true))
+	}
+	r, err := fox.New(opts...)
 	if err != nil {
 		panic(err)
 	}
 	for _, rt := range set.Routes {
 		if _, err := r.Handle(rt.Method, rt.Pattern, noopHandler); err != nil {
+			panic(err)
+		}
+	}
+	if sym.ParamOr("scenario", 0) == 9 {
+		if _, err := r.Handle("POST", "/flip/x", noopHandler); err != nil {
 			panic(err)
 		}
 	}
@@ -201,6 +210,37 @@ func HarnessC05Conc(st any) {
 		sym.Assert(has && lenOK, "a reader never sees the truncated intermediate state of a transaction")
 		sym.Assert(r.Len() == base && r.Has(target.Method, target.Pattern), "the transaction is committed")
 		sym.Cover("truncate+refill||reader")
+	case 8: // Delete of one route || Handle of another: neither committed write is lost
+		p := c05Pool[sym.Choose("p", len(c05Pool))]
+		target := s.set.Routes[0]
+		var ed, eh error
+		sym.Go(func() { _, ed = r.Delete(target.Method, target.Pattern) })
+		sym.Go(func() { _, eh = r.Handle("POST", p, noopHandler) })
+		sym.Join()
+		sym.Assert(ed == nil && eh == nil, "the concurrent Delete and Handle both succeed")
+		sym.Assert(!r.Has(target.Method, target.Pattern) && r.Has("POST", p) && r.Len() == base, "no committed write is lost (Delete || Handle)")
+		sym.Cover("Delete||Handle")
+	case 9: // a route moves from POST to GET in one transaction || a GET request (405 handling on): one tree per request
+		var status int
+		var allow string
+		sym.Go(func() {
+			_ = r.Updates(func(txn *fox.Txn) error {
+				if _, err := txn.Delete("POST", "/flip/x"); err != nil {
+					return err
+				}
+				_, err := txn.Handle("GET", "/flip/x", h200)
+				return err
+			})
+		})
+		sym.Go(func() {
+			w := &nullWriter{h: http.Header{}}
+			r.ServeHTTP(w, &http.Request{Method: "GET", Host: "h", URL: &url.URL{Path: "/flip/x"}})
+			status, allow = w.status, w.h.Get("Allow")
+		})
+		sym.Join()
+		sym.Assert(status == 200 || (status == 405 && allow == "POST"), "a request is answered from one published routing state (200 after the move, 405 Allow: POST before it)")
+		sym.Assert(r.Has("GET", "/flip/x") && !r.Has("POST", "/flip/x"), "the transaction is committed")
+		sym.Cover("method move||request")
 	case 5: // aborted transaction || reader
 		var saw bool
 		sym.Go(func() {
